@@ -11,6 +11,7 @@ import Proofs.GapBack
 import Proofs.MarkHistory
 import Proofs.MergeOpen
 import Proofs.InvertOkAround
+import Proofs.FlatInsertCore
 namespace PM
 
 /-- the pair-alignment proviso of the inverse of a replace-around step, in the old document: where the gap `gf … gt`
@@ -118,7 +119,8 @@ theorem insertInto_ok_aligned_aux (S : Schema) (ins : List Node) :
 
 theorem insertAt_ok_aligned (S : Schema) (sl x : Slice) (pos : Nat) (frag : List Node)
     (h : sl.insertAt S pos frag = .ok (some x)) : alignedAt sl.content (pos + sl.openStart) = true := by
-  unfold Slice.insertAt at h
+  rw [insertAt_of_le (insertAt_ok h).1] at h
+  unfold Slice.insertAtIn at h
   split at h
   · rename_i c hc
     exact insertInto_ok_aligned_aux S frag sl.content none sl.content _ 0 _ _ _ [] c (by simp) (by simp) hc
